@@ -19,8 +19,8 @@ RULE = ('A case is a batch of graph-lab hypernym digraphs (as in C13: edge masks
         'zero-IC special cases frequent) or wn.ic.compute() over a drawn corpus of one word per '
         'synset. Families: every labelled digraph on n<=3 nodes in three labelled variants, '
         'Hypothesis-drawn 4-node graphs, random 5-8 node graphs (DAG-biased, cycle-biased, forest, '
-        'diamond-stack, layered, two-LCS gadget). For every ordered pair (all pairs for n<=5, 16 drawn pairs '
-        'above) and simulate_root in {False, True}: path, wup, lch, and res/jcn/lin per weight '
+        'diamond-stack, layered, two-LCS gadget). For every ordered pair (all pairs for n<=5; '
+        'above that the pairs with several LCS plus 8 drawn ones, both orders) and simulate_root in {False, True}: path, wup, lch, and res/jcn/lin per weight '
         'assignment are compared with the documented formulas evaluated on brute-force reference '
         'graph functions (value must lie in the set of formula values over all lowest common '
         'hypernyms); symmetry, bounds, f(a,b)<=f(a,a) and the error conditions are checked on '
@@ -461,15 +461,15 @@ SUBS = [
                         'computed weights; a/s mix and mixed classes with given weights); all '
                         'ordered pairs; simulate_root False and True',
         sample=_sample, purge_every=8, case_timeout=900,
-        require_tags=('has-cycle', 'multiple-inheritance', '>=2-LCS', 'a/s-mix',
-                      'mixed-pos-classes', 'ic:compute', 'ic:weights', 'diamond')),
+        require_tags=('has-cycle', 'multiple-inheritance', 'a/s-mix', 'mixed-pos-classes',
+                      'ic:compute', 'ic:weights', 'ic:equal-weights', 'diamond')),
     Sub('drawn-n=4', oracle, _classify, strategy=_drawn_4,
-        budget={'quick': 20, 'thorough': 85}, sample=_sample, purge_every=8, case_timeout=900,
-        require_tags=('>=2-LCS', 'a/s-mix', 'mixed-pos-classes')),
+        budget={'quick': 20, 'thorough': 120}, sample=_sample, purge_every=8, case_timeout=900,
+        require_tags=('a/s-mix', 'mixed-pos-classes')),
     Sub('random-n=5..8', oracle, _classify, strategy=_random_big,
-        budget={'quick': 25, 'thorough': 40}, sample=_sample, purge_every=8, case_timeout=900,
-        require_tags=('>=2-LCS', '>=2-LCS-at-different-distances', 'family:layered')),
+        budget={'quick': 25, 'thorough': 80}, sample=_sample, purge_every=8, case_timeout=900,
+        require_tags=('family:layered', 'family:cyclic', 'family:diamonds')),
     Sub('several-lcs', oracle, _classify, strategy=_two_lcs,
-        budget={'quick': 30, 'thorough': 60}, sample=_sample, purge_every=8, case_timeout=900,
-        require_tags=('>=2-LCS-at-different-distances', 'family:two-lcs')),
+        budget={'quick': 30, 'thorough': 120}, sample=_sample, purge_every=8, case_timeout=900,
+        require_tags=('>=2-LCS', '>=2-LCS-at-different-distances', 'family:two-lcs')),
 ]
